@@ -244,7 +244,11 @@ def part_factor_eq(r, case):
         for wname, mkw, dense in (('diag', lambda: PatternedTensor(torch.tensor([1., 2.]), (k,), (k, k), 0.), ((1., 0.), (0., 2.))),
                                   ('dense-diag', lambda: [[1., 0.], [0., 2.]], ((1., 0.), (0., 2.))),
                                   ('diag-default7', lambda: PatternedTensor(torch.tensor([1., 2.]), (k,), (k, k), 7.), ((1., 7.), (7., 2.))),
-                                  ('full', lambda: [[1., 7.], [7., 2.]], ((1., 7.), (7., 2.)))):
+                                  ('full', lambda: [[1., 7.], [7., 2.]], ((1., 7.), (7., 2.))),
+                                  ('asym', lambda: [[1., 7.], [3., 2.]], ((1., 7.), (3., 2.))),
+                                  ('asym-transposed-view', lambda: PatternedTensor(torch.tensor([[1., 3.], [7., 2.]])).T, ((1., 7.), (3., 2.))),
+                                  ('asym-T', lambda: [[1., 3.], [7., 2.]], ((1., 3.), (7., 2.))),
+                                  ('asym-T-as-view', lambda: PatternedTensor(torch.tensor([[1., 7.], [3., 2.]])).T, ((1., 3.), (7., 2.)))):
             cat.append(((dname, dname), dense, lambda mk=mk, mkw=mkw: FiniteFactor([mk(), mk()], mkw())))
     for (d1, w1, m1), (d2, w2, m2) in itertools.product(cat, repeat=2):
         key = ('feq', d1, w1, d2, w2, id(m1), id(m2))
